@@ -2,8 +2,7 @@ def explain_sat_timed_always(op_signal, intervals, a, b):
     op_intervals = []
     a = int(a)
     b = int(b)
-    if intervals:
-        begin, end = intervals[0]
+    for begin, end in intervals:
         exp_begin = min(begin + a, len(op_signal) - 1)
         exp_end = min(end + b, len(op_signal) - 1)
         op_intervals.append([exp_begin, exp_end])
@@ -15,8 +14,7 @@ def explain_sat_timed_historically(op_signal, intervals, a, b):
     op_intervals = []
     a = int(a)
     b = int(b)
-    if intervals:
-        begin, end = intervals[0]
+    for begin, end in intervals:
         exp_begin = max(begin - b, 0)
         exp_end = max(end - a, 0)
         op_intervals.append([exp_begin, exp_end])
@@ -70,8 +68,7 @@ def explain_unsat_timed_once(op_signal, intervals, a, b):
     op_intervals = []
     a = int(a)
     b = int(b)
-    if intervals:
-        begin, end = intervals[0]
+    for begin, end in intervals:
         exp_begin = max(begin - b, 0)
         exp_end = max(end - a, 0)
         op_intervals.append([exp_begin, exp_end])
@@ -125,8 +122,7 @@ def explain_unsat_timed_eventually(op_signal, intervals, a, b):
     op_intervals = []
     a = int(a)
     b = int(b)
-    if intervals:
-        begin, end = intervals[0]
+    for begin, end in intervals:
         exp_begin = min(begin + a, len(op_signal) - 1)
         exp_end = min(end + b, len(op_signal) - 1)
         op_intervals.append([exp_begin, exp_end])
